@@ -52,7 +52,7 @@ def model_check(prop, cfg, kind, tier):
     wd = vlib.workdir(prop, "mc_" + cfg)
     if kind == "sim":
         r = vlib.tlc(wd, "MCWait.tla", cfg + ".cfg", workers=4, timeout=1500,
-                     simulate="num=%d" % 4000, extra=["-depth", "60", "-seed", str(vlib.seed())])
+                     simulate="num=%d" % 1500, extra=["-depth", "60", "-seed", str(vlib.seed())])
     else:
         r = vlib.tlc(wd, "MCWait.tla", cfg + ".cfg", workers=4, timeout=2400, coverage=(tier == "thorough" and kind == "mc"))
     if r.violated:
@@ -229,6 +229,19 @@ def code_walks(via):
             {"op": "request", "ws": [], "wc": [], "cs": [(c + 1) % 256]},
             {"op": "request", "ws": [], "wc": [], "cs": [c]},
             {"op": "race", "ws": ["w3"], "wc": [c], "cs": [c]}]})
+    if via:
+        # request classes of the dispatcher with waiters parked on the code: add-hardware-certificate in every frame variant
+        # (two well-formed formats, two malformed ones that end the connection with an error), slot requests, the wait
+        # request itself, standard and forwarded requests
+        for j, c in enumerate([31] * 8 + [33, 33, 34, 34, 32, 35, 35, 11, 13, 17, 18, 19, 22, 23, 25, 1, 0, 9, 20, 21, 26, 27, 36, 39]):
+            d = 12 if c != 12 else 14
+            ws.append({"id": "k%d" % j, "steps": [
+                {"op": "reg", "ws": ["w1", "w2"], "wc": [c, c], "cs": []},
+                {"op": "reg", "ws": ["w3"], "wc": [d], "cs": []},
+                {"op": "request", "ws": [], "wc": [], "cs": [c]},
+                {"op": "reg", "ws": ["w4", "w5", "w6"], "wc": [c, d, c], "cs": []},
+                {"op": "request", "ws": [], "wc": [], "cs": [c, 40]},
+                {"op": "request", "ws": [], "wc": [], "cs": [d]}]})
     return ws
 
 
@@ -351,6 +364,8 @@ def execute(prop, tier, bins, plans_by_via, expect, verdict, drift, label, par, 
         for k in ("walks", "steps", "noverdict", "slow", "panics", "skipped", "leaked"):
             stats[k] += summ.get(k, 0)
         stats["max_parked"] = max(stats["max_parked"], summ.get("max_parked", 0))
+        for k, n in (summ.get("classes") or {}).items():
+            stats["classes"][k] = stats["classes"].get(k, 0) + n
         if summ.get("nvtext") and not stats.get("nvtext"):
             stats["nvtext"] = summ["nvtext"]
     st = judge(prop, verdict, traces, plans, label, drift)
@@ -371,7 +386,7 @@ def execute(prop, tier, bins, plans_by_via, expect, verdict, drift, label, par, 
 
 def new_stats():
     return {"walks": 0, "steps": 0, "noverdict": 0, "slow": 0, "panics": 0, "skipped": 0, "leaked": 0, "max_parked": 0, "events": 0,
-            "tv_wall": 0.0, "traces": 0, "compared": 0, "shapes": set(), "releases": 0}
+            "tv_wall": 0.0, "traces": 0, "compared": 0, "shapes": set(), "releases": 0, "classes": {}}
 
 
 def replay(prop, path):
@@ -407,10 +422,15 @@ def run(prop, tier):
     bins = res["build"]
     tot_states = sum(r.distinct for n, r in res.items() if n.startswith("MCWait") and r.distinct)
     tot_trans = sum(r.generated for n, r in res.items() if n.startswith("MCWait") and r.generated)
-    vacuous = []
+    vacuous = set()
     for n, r in res.items():
         if n.startswith("MCWait"):
-            vacuous += ["%s:%s" % (n, a) for a in getattr(r, "coverage_zero", [])]
+            split = "SplitReg = TRUE" in open(os.path.join(vlib.SPEC, n + ".cfg")).read()
+            off = {"Register", "Race"} if split else {"Call", "Park"}     # switched off by SplitReg in this cfg, by design
+            vacuous |= {"%s:%s" % (n, a) for a in getattr(r, "coverage_zero", []) if a not in off}
+    vacuous = sorted(vacuous)
+    if vacuous:
+        raise NoVerdict("vacuous model run, actions never taken: %s" % vacuous)
     rl = res["MCWait_lts"]
     lts = LTS(vlib.tlc_json_lines(rl.stdout, "TR"))
     un = vlib.tlc_json_lines(rl.stdout, "UN")[0]
@@ -474,6 +494,7 @@ def run(prop, tier):
            "rule": "every recorded step (registration observed on the notify lists, request, registration racing with requests) of every "
                    "walk is judged by TLC with C20_Step (TraceWait.tla); distinct_nontrivial = distinct (binding, step kind, multiset of "
                    "parked waiters per code, relation of the step's codes to the parked ones, somebody returned) shapes exercised on the real code",
+           "request_classes_through_ServeAgent": dict(sorted(stats["classes"].items())),
            "max_concurrently_parked": stats["max_parked"], "slow_returns": stats["slow"], "panics_observed": stats["panics"],
            "steps_skipped_by_the_8_waiter_cap": stats["skipped"], "goroutines_left_parked": stats["leaked"],
            "walks_without_observation": stats["noverdict"], "spec_drift": len(drift), "zero_coverage_actions": vacuous,
